@@ -314,6 +314,9 @@ func (g *gen) failReply(ms []rscp.Message) replySpec {
 	case 1:
 		return replySpec{behaviour{kind: "closeBefore"}, "X"}
 	case 2:
+		if g.chance(0.5) {
+			return replySpec{behaviour{kind: "closeInside", k: 101 + g.pick(62), items: items}, "X"}
+		}
 		return replySpec{behaviour{kind: "closeInside", k: g.pick(3), items: items}, "X"}
 	case 3:
 		return replySpec{behaviour{kind: "garbled", k: 0, items: items}, "P invalidMagic 0"}
